@@ -1,7 +1,7 @@
 CONSTANTS
   FAMILY = "one"
-  D = 4
-  NV = 1
+  D = 2
+  NV = 3
   DeltaVecs <- DV_std
   Dists <- Dists_two
   Lim2 <- Lim2_none
